@@ -29,16 +29,40 @@ Bytes union_values(const Bytes &a, const Bytes &b)
 	for (auto &t : ta) { o += t; o.push_back('\n'); }
 	return o;
 }
+Bytes fold_values(int mfunc, const Bytes &a, const Bytes &b)
+{
+	switch (mfunc) {
+	case MF_MIN: return mfmt::cmp(a, b) <= 0 ? a : b;
+	case MF_MAX: return mfmt::cmp(a, b) >= 0 ? a : b;
+	case MF_LCP: return a.substr(0, mfmt::lcp(a, b));
+	case MF_SUM32: {
+		uint32_t x = 0, y = 0;
+		for (size_t i = 0; i < 4; i++) { if (i < a.size()) x |= (uint32_t)(uint8_t)a[i] << (8 * i); if (i < b.size()) y |= (uint32_t)(uint8_t)b[i] << (8 * i); }
+		uint32_t z = x + y;
+		Bytes o; for (int i = 0; i < 4; i++) o.push_back((char)(z >> (8 * i)));
+		return o;
+	}
+	default: return union_values(a, b);
+	}
+}
+static MergeCtx g_stateless[MF_N];
+void *stateless_merge_ctx(int mfunc)
+{
+	MergeCtx *m = &g_stateless[mfunc % MF_N];
+	m->mfunc = mfunc % MF_N; m->stateless = true;
+	return m;
+}
 void merge_union_cb(void *clos, const uint8_t *key, size_t len_key, const uint8_t *v0, size_t l0,
 		    const uint8_t *v1, size_t l1, uint8_t **out, size_t *lout)
 {
-	MergeCtx *m = (MergeCtx *)clos;	// NULL = stateless (callbacks running on pool workers)
-	if (m) {
+	MergeCtx *m = (MergeCtx *)clos;	// NULL = stateless union (callbacks running on pool workers)
+	int mfunc = m ? m->mfunc : MF_UNION;
+	if (m && !m->stateless) {
 		m->calls++;
 		m->per_key[Bytes((const char *)key, len_key)]++;
 		if (m->fail_at && m->calls == m->fail_at) { m->failed_key = Bytes((const char *)key, len_key); m->fail_fired = true; *out = nullptr; *lout = 0; return; }
 	}
-	Bytes r = union_values(Bytes((const char *)v0, l0), Bytes((const char *)v1, l1));
+	Bytes r = fold_values(mfunc, Bytes((const char *)v0, l0), Bytes((const char *)v1, l1));
 	*out = (uint8_t *)malloc(r.size() ? r.size() : 1);
 	memcpy(*out, r.data(), r.size());
 	*lout = r.size();
@@ -152,6 +176,8 @@ static Plan gen_merge(const std::string &prop, const std::string &tier, uint64_t
 	int shape = (int)r.below(5);	// 0 random subsets 1 identical 2 disjoint 3 one key shared by all 4 some empty
 	int mode = prop == "C05" ? 0 : (int)r.below(10);	// <6 merge, 6..7 no merge, 8..9 no merge + dupsort
 	p.seti("mode", mode < 6 ? 0 : mode < 8 ? 1 : 2);
+	int mfunc = r.chance(3, 5) ? MF_UNION : 1 + (int)r.below(MF_N - 1);
+	p.seti("mfunc", mfunc);
 	p.seti("nsrc_user", 0);
 	for (size_t s = 0; s < nsrc; s++) {
 		bool user = r.chance(1, 3);
@@ -165,7 +191,10 @@ static Plan gen_merge(const std::string &prop, const std::string &tier, uint64_t
 			case 3: take = i == 0 || r.chance(1, 4); break;
 			default: take = r.chance(1, 2);
 			}
-			if (take) p.op("ent", { std::to_string(s), spec_of(pool[i]), std::to_string(r.chance(1, 20) ? 1 + r.below(300) : 0) });
+			if (take) {
+				if (mfunc == MF_UNION) p.op("ent", { std::to_string(s), spec_of(pool[i]), std::to_string(r.chance(1, 20) ? 1 + r.below(300) : 0) });
+				else { Bytes v = "val"; size_t n = r.below(12); for (size_t q = 0; q < n; q++) v.push_back((char)('a' + r.below(3))); if (r.chance(1, 4)) v = kg.value(100); p.op("ent", { std::to_string(s), spec_of(pool[i]), "0", spec_of(v) }); }
+			}
 		}
 	}
 	if (prop == "C04") {
@@ -224,6 +253,7 @@ bool mergeworld_build(const Plan &p, RunResult &res, MergeWorld &w, const std::s
 			Bytes v = t;
 			if (o.argi(2) > 0) v.append((size_t)o.argi(2), '.');	// long token: values larger than a few bytes
 			v.push_back('\n');
+			if (w.mfunc != MF_UNION && o.a.size() > 3) v = o.argb(3);
 			w.srcs[id].ents[k] = v;
 		}
 	}
@@ -255,7 +285,7 @@ bool mergeworld_build(const Plan &p, RunResult &res, MergeWorld &w, const std::s
 	for (auto &s : w.srcs) for (auto &kv : s.ents) {
 		auto f = w.merged.find(kv.first);
 		if (f == w.merged.end()) w.merged[kv.first] = kv.second;
-		else f->second = union_values(f->second, kv.second);
+		else f->second = fold_values(w.mfunc, f->second, kv.second);
 	}
 	return true;
 }
@@ -273,17 +303,20 @@ static RunResult exec_merge(const Plan &p)
 {
 	RunResult res;
 	MergeWorld w;
+	w.mfunc = (int)(p.geti("mfunc", 0) % MF_N);
 	std::string dir = scratch_dir();
 	if (!mergeworld_build(p, res, w, dir)) return res;
 	int mode = (int)p.geti("mode", 0);
 	int observe = (int)p.geti("observe", 0);
 	MergeCtx mc;
+	mc.mfunc = w.mfunc;
+	res.probes[std::string("merge-func-") + "umlxs"[w.mfunc]]++;
 	mc.fail_at = (uint64_t)p.geti("mergefail", 0);
 	if (observe != 0) mc.fail_at = 0;
 	bool all_tables = true;
 	size_t nsrc = 0;
 	for (auto &s : w.srcs) if (s.used) { nsrc++; if (s.user) all_tables = false; }
-	if (observe == 2 && (!all_tables || nsrc == 0 || mode != 0 || mc.fail_at)) observe = 0;
+	if (observe == 2 && (!all_tables || nsrc == 0 || mode != 0 || mc.fail_at || w.mfunc != MF_UNION)) observe = 0;
 	res.ev.u(nsrc); res.ev.u(mode); res.ev.u(observe);
 
 	mtbl_merger_options *mo = mtbl_merger_options_init();
